@@ -103,6 +103,10 @@ var c05pool = map[string][]string{
 	"expression": {"<=", "<>", "<<", ">=", ">>", "!=", "<", ">", "!", "a<=b<>c<<d>=e>>f!=g", "abc", "1.5e3", "'q''r'", "\"w\"", "'open", "/* c */", "/* open", "/", " ", "", "NOT x"},
 	"csv":        {"\r\n", "\n\r", "\r", "\n", "a,b\r\nc\n\rd", "\"q\"\"r\"", "\"open", ",", "", "a"},
 	"generic-custom": {"=:=", "=:", "=", "<!--", "<!-", "<!", "!>>>", "!>>", "a=:=b<!--c", "=:=:<!-!>>", "", "x"},
+	"generic-arrows": {"страна", "a → b", "→", "x→y", "日本　語", "ab", "", "→→ж", "'→'", "ж"},
+	"generic-quotes":     {"a «b c«", "«open", "“d“ x", "", "'e'", "««"},
+	"generic-unknownsym": {"a ? b", "?!", "?", "!?", "", "x"},
+	"csv-wide":       {"日本；語", "страна", "a；b", "«q；»；x", "；", "", "a,b", "ж；ж\r\nж"},
 	"mustache":   {"{{", "{{{", "}}", "}}}", "{{a}}", "{{{a}}}", "x{{a}}y{{{b}}}z", "text", "{{ 'q' }}", "{{#a}}b{{/a}}", "{", "}", "", "{{ open"},
 }
 
@@ -179,7 +183,7 @@ func genC05(g *Gen) {
 			seg := []Ev{first}
 			for y := 0; y < 2+r.Intn(6); y++ {
 				var in string
-				if r.Intn(3) == 0 {
+				if r.Intn(3) == 0 && tokAlpha[kind] != nil {
 					in = string(randomInput(g, kind, 12))
 				} else {
 					in = pool[r.Intn(len(pool))]
